@@ -339,8 +339,36 @@ package rsm
 //@ ghost field IManagedStateMachine.gconcurrent bool
 //@ iface (m IManagedStateMachine) Concurrent
 //@ ensures result == m.gconcurrent
+// gapplymu: the address of the apply lock (StateMachine.mu) that serialises the calls into this
+// managed state machine; PrepareSnapshot needs it (shared is enough: Update holds it exclusively),
+// Sync needs it exclusively
+//@ ghost field IManagedStateMachine.gapplymu int
 //@ iface (m IManagedStateMachine) Prepare
+//@ requires held(0 + m.gapplymu) != 0
 //@ iface (m IManagedStateMachine) Sync
+//@ requires held(0 + m.gapplymu) == 2
+
+//@ func (s *StateMachine) prepare [C11]
+//@ noframe
+//@ nobounds
+//@ requires s.sm != nil && s.sm.gapplymu == ptr(s.mu) && held(s.mu) != 0
+//@ func (s *StateMachine) checkSnapshotStatus [C11]
+//@ trusted compares the request with the applied index / aborted flag
+//@ func (s *StateMachine) savingDummySnapshot [C11]
+//@ trusted pure decision
+
+//@ func (s *StateMachine) stream [C11]
+//@ noframe
+//@ nobounds
+//@ requires s.sm != nil && s.sm.gapplymu == ptr(s.mu) && held(s.mu) == 0 && s.snapshotter != nil
+//@ modifies held(s.mu)
+//@ iface (sn ISnapshotter) Stream
+
+//@ func (s *StateMachine) sync [C11]
+//@ noframe
+//@ nobounds
+//@ requires s.sm != nil && s.sm.gapplymu == ptr(s.mu) && held(s.mu) == 0
+//@ modifies held(s.mu), s.syncedIndex
 
 //@ iface (sn ISnapshotter) Save
 //@ ensures true
@@ -355,19 +383,19 @@ package rsm
 
 //@ func (s *StateMachine) save [C11 C08]
 //@ noframe
-//@ requires s.sm != nil && s.snapshotter != nil && s.sessions != nil
+//@ requires s.sm != nil && s.snapshotter != nil && s.sessions != nil && s.sm.gapplymu == ptr(s.mu)
 //@ modifies held(s.mu), s.snapshotIndex
 //@ ensures held(s.mu) == 0
 
 //@ func (s *StateMachine) concurrentSave [C11 C08]
 //@ noframe
-//@ requires s.sm != nil && s.snapshotter != nil && s.sessions != nil && s.sm.gconcurrent
+//@ requires s.sm != nil && s.snapshotter != nil && s.sessions != nil && s.sm.gconcurrent && s.sm.gapplymu == ptr(s.mu)
 //@ modifies held(s.mu), s.snapshotIndex, s.syncedIndex
 
 // C18: witnesses never take state machine snapshots; C11: the locked path is chosen for plain SMs
 //@ func (s *StateMachine) Save [C11 C18 C08]
 //@ noframe
-//@ requires s.sm != nil && s.snapshotter != nil && s.sessions != nil
+//@ requires s.sm != nil && s.snapshotter != nil && s.sessions != nil && s.sm.gapplymu == ptr(s.mu)
 //@ modifies held(s.mu), s.snapshotIndex, s.syncedIndex
 //@ ensures !s.isWitness
 
